@@ -280,8 +280,11 @@ class LockNet(tunnelnet.TunnelNet):
         es = []
         for cid, e in ov.exit_sockets.items():
             es.append("(%d, mkES %d %s %s)" % (cid, e.circuit_id, self.hop_coq(e.hop), "true" if e.enabled else "false"))
-        return self.intern("(mkNode pfx %d %s %s %s [%s] [%s] [%s])" % (
+        # data_message_ids: which cell messages are also accepted out of a data message (trees without that
+        # attribute hand every registered cell handler's message to the dispatcher)
+        return self.intern("(mkNode pfx %d %s %s %s %s [%s] [%s] [%s])" % (
             ov.settings.max_relay_early, zlist(sorted(ov.settings.peer_flags)), zlist(sorted(ov.decode_map_private)),
+            zlist(sorted(getattr(ov, "data_message_ids", range(256)))),
             "true" if isinstance(ov.endpoint, TunnelEndpoint) else "false",
             "; ".join(cs), "; ".join(rs), "; ".join(es)), "st")
 
